@@ -250,6 +250,10 @@ def resource_clauses(view, out):
             n = sum(1 for _, s, e in lst if s <= t < e)
             if n > size:
                 ok = False
+            # zero-length tasks strictly inside busy intervals of every unit: unspecified
+            nz = sum(1 for _, s, e in lst if s == e == t)
+            if ok and nz and n + nz > size and any(s < t < e for _, s, e in lst):
+                ok = None
         if lst:
             out.append((cid, "CumulativeWorker", "capacity", ok, None))
     # selections: count rule (only when explored)
@@ -508,10 +512,18 @@ def c_periodically_unavailable(view, a):
     res = True
     H = view.program["H"]
     wins = periodic_windows(a, H + 2)
+    st, en = a.get("start", 0), a.get("end")
     for (t, bs, be) in lst:
+        outside = be <= st or (en is not None and bs >= en)
         for lo, hi, status in wins:
             c = interval_conflict(bs, be, lo, hi)
-            if status == "off" or c is False:
+            if c is False:
+                continue
+            if status == "off":
+                # an inactive repetition: certainly harmless for a task lying entirely outside the
+                # activity window; for a task straddling the window's edge the docs are silent
+                if not outside:
+                    res = k_and([res, None])
                 continue
             if status == "edge" or c is None:
                 res = k_and([res, None])
@@ -575,8 +587,14 @@ def _interrupted(view, a, windows):
     rid = a["resource"]["$"]
     lst, _c = _res_busy(view, rid)
     res = True
+    st, en = a.get("start", 0), a.get("end")
     for (t, bs, be) in lst:
         task = view.tasks[t]
+        outside = be <= st or (en is not None and bs >= en)
+        for lo, hi, status in windows:
+            # inactive repetition touched by a task that straddles the activity window: unspecified
+            if status == "off" and not outside and (overlap_len(bs, be, lo, hi) > 0 or lo < bs < hi or lo < be < hi):
+                res = k_and([res, None])
         if task["cls"] == "VariableDurationTask":
             tot = 0
             for lo, hi, status in windows:
